@@ -182,13 +182,13 @@ func TestVerif_C23(t *testing.T) {
 	run := verifkit.Start(t, "C23", "route")
 	defer run.Finish()
 	table := c23Table()
-	run.Rule(fmt.Sprintf("fault enumeration: a fixed table of %d rows = endpoint {/1/events, /1/batch (JSON, msgpack; incoming and peer listener), /v1/traces, /v1/logs (protobuf, JSON), gRPC TraceService/Export, LogsService/Export} x fault {none, bad dataset escape, environment lookup error, body read error, malformed body, ill-typed body, queue full, invalid events, and the combinations env+queue-full, env+malformed, invalid+queue-full} x variant (cut points, which events are refused/empty, compression); every row is executed K times (quick 2, thorough 40) with PRNG-chosen payloads of 1-5 events mixing own spans, peer-owned spans and trace-less events; non-trivial = a row with an injected fault; distinct = table row", len(table)))
+	run.Rule(fmt.Sprintf("fault enumeration: a fixed table of %d rows = endpoint {/1/events, /1/batch (JSON, msgpack; incoming and peer listener), /v1/traces, /v1/logs (protobuf, JSON), gRPC TraceService/Export, LogsService/Export} x fault {none, bad dataset escape, environment lookup error, body read error, malformed body, ill-typed body, queue full, invalid events, and the combinations env+queue-full, env+malformed, invalid+queue-full} x variant (cut points, which events are refused/empty, compression); every row is executed K times (quick 2, thorough 300) with PRNG-chosen payloads of 1-5 events mixing own spans, peer-owned spans and trace-less events; non-trivial = a row with an injected fault; distinct = table row", len(table)))
 	run.Assume("side effects are exactly: Collector.AddSpan/AddSpanFromPeer returning nil, UpstreamTransmission/PeerTransmission.Enqueue*; a span the collector refuses with ErrWouldBlock is 'refused because the queue was full'")
 	run.Assume("bad dataset escapes and short bodies are delivered over a loopback TCP connection to an http.Server serving the router's own mux; failing in-process body readers return io.ErrUnexpectedEOF, which is what net/http hands a handler whose client closed early")
 
 	b := e3New(t, E3Options{GRPC: true})
 	defer b.Close()
-	k := run.N(2, 40)
+	k := run.N(2, 300)
 	run.Cases("table", len(table)*k, func(i int, rng *verifkit.Rand) {
 		c23RunRow(t, run, b, table[i%len(table)], rng, i)
 	})
